@@ -15,7 +15,7 @@ LEVEL = 'exploration'
 TECHNIQUE = 'bounded-exhaustive enumeration: all per-segment byte-order assignments x finite families of logical contents, real reader, differential (all-LE) + reference oracle'
 LEVEL_TEXT = ('All 17 data types (pairs, both layouts, multi-chunk), every property type, inherited / metadata-less segments, DAQmx '
               'format-changing scalers of every type and digital lines: each logical history is encoded under every per-segment '
-              'byte-order assignment and read eagerly and lazily, with raw_timestamps on and off.')
+              'byte-order assignment and read eagerly, lazily and eagerly with memmap_dir, with raw_timestamps on and off.')
 LEVEL_NOTE = 'Trusted: big-endian encoding rules in mc/tdmsgen.py (ToC always little-endian; timestamps swap field order; strings keep bytes, offsets swap). big_endian.tdms from the repository test data is decoded by selftest.'
 ASSUMPTIONS = ['the addressed bit of a multi-byte digital-line word is bit (offset mod 8) of its value in the byte order of the segment']
 
@@ -119,19 +119,27 @@ def _chunks_vs_read(data):
 
 def run_hist(item):
     fam, hist, seed = item
-    res = {'counters': {'histories': 1, 'encodings': 0, 'reads': 0, 'nontrivial': 0}, 'outcomes': {}, 'violations': [], 'samples': []}
+    res = {'counters': {'histories': 1, 'encodings': 0, 'reads': 0, 'nontrivial': 0, 'memmap_reads': 0}, 'outcomes': {}, 'violations': [], 'samples': []}
     n = len(hist)
     base = {}
     ref0 = None
+    mm = None
     for bits in itertools.product((0, 1), repeat=n):
         h = with_order(hist, bits)
         data, _i, _l, ref = G.encode(h, seed=seed, ref=G.interpret(h, seed=seed, lenient=True, filler_phase=seed))
         res['counters']['encodings'] += 1
         if any(bits):
             res['counters']['nontrivial'] += 1
-        for lazy in (False, True):
+        for lazy in (False, True, 'memmap'):
             for raw_ts in (True, False):
-                o = H.observe(data, lazy=lazy, raw_timestamps=raw_ts)
+                if lazy == 'memmap':
+                    # eager read into memory-mapped receivers: the receiver's dtype is chosen before the bytes arrive
+                    if mm is None:
+                        mm = H.scratch('c15mm')
+                    o = H.observe(data, lazy=False, raw_timestamps=raw_ts, memmap_dir=mm)
+                    res['counters']['memmap_reads'] += 1
+                else:
+                    o = H.observe(data, lazy=lazy, raw_timestamps=raw_ts)
                 res['counters']['reads'] += 1
                 key = (lazy, raw_ts)
                 bad = None
@@ -145,7 +153,7 @@ def run_hist(item):
                         if why:
                             bad = ('le-differs-from-reference', why)
                 else:
-                    if fam.startswith('daqmx') and lazy and raw_ts:
+                    if fam.startswith('daqmx') and lazy is True and raw_ts:
                         # chunk streams hand out the segment arrays themselves: they must agree with the windowed read
                         cw = _chunks_vs_read(data)
                         if cw:
@@ -165,6 +173,9 @@ def run_hist(item):
                                               'expected': 'same as little-endian encoding', 'observed': bad[1],
                                               'signature': {'kind': bad[0], 'family': fam, 'types': types if fam != 'props' else None,
                                                             'lazy': lazy, 'raw_ts': raw_ts}})
+    if mm is not None:
+        import shutil
+        shutil.rmtree(mm, ignore_errors=True)
     res['outcomes']['same' if not res['violations'] else 'differs'] = 1
     if fam == 'inherit':
         res['samples'].append({'family': fam, 'history': G.describe(hist), 'assignments': 2 ** n})
@@ -177,8 +188,9 @@ def run(ctx):
     m = merge(ctx.map(run_hist, [(f, h, ctx.seed) for f, h in hs], chunksize=2))
     c = m['counters']
     cov = {'evaluations': c['reads'], 'histories': c['histories'], 'encodings': c['encodings'], 'distinct_nontrivial': c['nontrivial'],
-           'rule': 'distinct (history, byte-order assignment) with at least one big-endian segment; each read eagerly and lazily, '
-                   'with raw_timestamps on and off',
+           'memmap_reads': c['memmap_reads'],
+           'rule': 'distinct (history, byte-order assignment) with at least one big-endian segment; each read eagerly, lazily and '
+                   'eagerly into memory-mapped receivers (memmap_dir), with raw_timestamps on and off',
            'outcomes': m['outcomes'], 'samples': m['samples'][:3], 'exhaustive': True,
            'vacuity_failures': [] if c['nontrivial'] else ['no big-endian encoding']}
     return cov, m['violations']
